@@ -91,29 +91,29 @@ func (s *Sink) keep(p []byte) {
 
 // Read modes of Source.
 const (
-	ReadPlain    = iota // as much as fits
-	ReadOneByte         // one byte per call
-	ReadRandom          // random chunk sizes
-	ReadWithEOF         // the last chunk is returned together with io.EOF
-	ReadZeroMixed       // (0, nil) reads interleaved (at most one in a row)
+	ReadPlain     = iota // as much as fits
+	ReadOneByte          // one byte per call
+	ReadRandom           // random chunk sizes
+	ReadWithEOF          // the last chunk is returned together with io.EOF
+	ReadZeroMixed        // (0, nil) reads interleaved (at most one in a row)
 	NumReadModes
 )
 
 // Source is an io.Reader over a byte slice with fragmentation and fault
 // injection; it counts calls and bytes handed out.
 type Source struct {
-	Data      []byte
-	Pos       int
-	Calls     int
-	Mode      int
-	G         *prng.Rng
-	FailAt    int  // 1-based call index that fails (0: never); stays failed afterwards
-	FailData  bool // the failing call also returns some bytes
-	Budget    int
-	EOFs      int
-	Errs      []*InjErr
-	lastZero  bool
-	MaxChunk  int
+	Data     []byte
+	Pos      int
+	Calls    int
+	Mode     int
+	G        *prng.Rng
+	FailAt   int  // 1-based call index that fails (0: never); stays failed afterwards
+	FailData bool // the failing call also returns some bytes
+	Budget   int
+	EOFs     int
+	Errs     []*InjErr
+	lastZero bool
+	MaxChunk int
 }
 
 func (s *Source) Read(p []byte) (int, error) {
